@@ -6,6 +6,7 @@ import (
 	"fmt"
 	"go/constant"
 	"go/types"
+	"sort"
 	"strings"
 
 	"golang.org/x/tools/go/ssa"
@@ -117,6 +118,8 @@ func (s c18Src) String() string {
 		return "constant " + s.desc
 	case "zero":
 		return "zero value (never assigned)"
+	case "param":
+		return "computed value " + s.desc
 	}
 	return "computed value " + s.desc
 }
@@ -200,6 +203,8 @@ func (f *c18Flow) fieldSources(loc c18Loc, top bool) []c18Src {
 
 func (f *c18Flow) valueSources(v ssa.Value) []c18Src {
 	switch x := v.(type) {
+	case *ssa.Parameter:
+		return []c18Src{{kind: "param", v: v, desc: "parameter " + x.Name()}}
 	case *ssa.Const:
 		d := "nil"
 		if x.Value != nil {
@@ -315,6 +320,13 @@ func (k *c18) r3() {
 
 // ---- C18.a: NBNS responders echo the request's TransactionID
 
+// c18Marshal is a point where a packet is encoded for sending: a Marshal call, or a call of
+// a module function that Marshals the argument it is given (s.send(response, addr)).
+type c18Marshal struct {
+	in  *ssa.Call
+	obj ssa.Value // the packet that is encoded
+}
+
 func (k *c18) r3nbtns() {
 	const rule = "R3-id-echo"
 	pk := k.p.Pkg(c18Nbtns)
@@ -334,7 +346,8 @@ func (k *c18) r3nbtns() {
 	n := 0
 	// pass 1: per function, the packets Unmarshal-ed from its input and its Marshal calls
 	localReq := map[*ssa.Function][]ssa.Value{}
-	marshalsOf := map[*ssa.Function][]*ssa.Call{}
+	marshalsOf := map[*ssa.Function][]c18Marshal{}
+	unmarshals := map[*ssa.Function]bool{}
 	var order []*ssa.Function
 	for _, fn := range k.fns {
 		if relPkg(k.p, fn) != c18Nbtns {
@@ -351,6 +364,7 @@ func (k *c18) r3nbtns() {
 				args := effects.AllArgs(&call.Call)
 				switch obj {
 				case unm:
+					unmarshals[fn] = true
 					if len(args) < 2 {
 						continue
 					}
@@ -364,7 +378,160 @@ func (k *c18) r3nbtns() {
 						localReq[fn] = append(localReq[fn], l.root)
 					}
 				case mar:
-					marshalsOf[fn] = append(marshalsOf[fn], call)
+					if len(args) > 0 {
+						marshalsOf[fn] = append(marshalsOf[fn], c18Marshal{call, args[0]})
+					}
+				}
+			}
+		}
+	}
+	// pass 1b: the decode and the encode may each sit in a helper of their own
+	// (packet, ok := decodeRequest(data) … s.send(s.answer(packet), addr)):
+	//   - a declared function that returns the packet it Unmarshal-ed from its input hands a
+	//     request to its caller when the caller feeds it from its own input;
+	//   - a declared function that calls Marshal on one of its parameters is a marshal site of
+	//     its callers, for the argument they pass.
+	pktPtr := func(t types.Type) bool {
+		pt, ok := t.Underlying().(*types.Pointer)
+		if !ok {
+			return false
+		}
+		rt := unm.Type().(*types.Signature).Recv().Type()
+		if rp, ok := rt.(*types.Pointer); ok {
+			rt = rp.Elem()
+		}
+		return types.Identical(pt.Elem(), rt)
+	}
+	for round := 0; round < 2; round++ {
+		returnsReq := map[*ssa.Function]int{}
+		for _, g := range order {
+			if g.Parent() != nil || len(localReq[g]) == 0 {
+				continue
+			}
+			res := g.Signature.Results()
+			for idx := 0; idx < res.Len(); idx++ {
+				if !pktPtr(res.At(idx).Type()) {
+					continue
+				}
+				good, bad := 0, 0
+				for _, b := range g.Blocks {
+					for _, in := range b.Instrs {
+						ret, ok := in.(*ssa.Return)
+						if !ok || idx >= len(ret.Results) {
+							continue
+						}
+						rv := ret.Results[idx]
+						if c, isC := rv.(*ssa.Const); isC && c.Value == nil {
+							continue
+						}
+						l, ok := k.addrLoc(rv, 0)
+						isReq := false
+						if ok && len(l.path) == 0 {
+							for _, rr := range localReq[g] {
+								if rr == l.root {
+									isReq = true
+								}
+							}
+						}
+						if isReq {
+							good++
+						} else {
+							bad++
+						}
+					}
+				}
+				if good > 0 && bad == 0 {
+					returnsReq[g] = idx
+				}
+			}
+		}
+		for _, fn := range order {
+			for _, b := range fn.Blocks {
+				for _, in := range b.Instrs {
+					call, ok := in.(*ssa.Call)
+					if !ok {
+						continue
+					}
+					g := call.Call.StaticCallee()
+					idx, has := returnsReq[g]
+					if g == nil || !has {
+						continue
+					}
+					fromParam := false
+					for _, a := range call.Call.Args {
+						if sl, isSl := a.Type().Underlying().(*types.Slice); !isSl || !types.Identical(sl.Elem(), types.Typ[types.Byte]) {
+							continue
+						}
+						for _, rt := range effects.Roots(a) {
+							if _, ok := rt.(*ssa.Parameter); ok {
+								fromParam = true
+							}
+						}
+					}
+					if !fromParam {
+						continue
+					}
+					var val ssa.Value = call
+					if g.Signature.Results().Len() > 1 {
+						val = nil
+						if refs := call.Referrers(); refs != nil {
+							for _, r := range *refs {
+								if ex, ok := r.(*ssa.Extract); ok && ex.Index == idx {
+									val = ex
+								}
+							}
+						}
+					}
+					if val == nil {
+						continue
+					}
+					dup := false
+					for _, rr := range localReq[fn] {
+						if rr == val {
+							dup = true
+						}
+					}
+					if !dup {
+						localReq[fn] = append(localReq[fn], val)
+					}
+				}
+			}
+		}
+	}
+	{
+		marshalsParam := map[*ssa.Function][]int{}
+		for _, g := range order {
+			if g.Parent() != nil {
+				continue
+			}
+			for _, m := range marshalsOf[g] {
+				if l, ok := k.addrLoc(m.obj, 0); ok && len(l.path) == 0 {
+					if prm, isP := l.root.(*ssa.Parameter); isP {
+						for i, q := range g.Params {
+							if q == prm {
+								marshalsParam[g] = append(marshalsParam[g], i)
+							}
+						}
+					}
+				}
+			}
+		}
+		for _, fn := range order {
+			for _, b := range fn.Blocks {
+				for _, in := range b.Instrs {
+					call, ok := in.(*ssa.Call)
+					if !ok {
+						continue
+					}
+					g := call.Call.StaticCallee()
+					if g == nil || g == fn {
+						continue
+					}
+					for _, i := range marshalsParam[g] {
+						if i < len(call.Call.Args) {
+							marshalsOf[fn] = append(marshalsOf[fn], c18Marshal{call, call.Call.Args[i]})
+						}
+					}
 				}
 			}
 		}
@@ -376,6 +543,10 @@ func (k *c18) r3nbtns() {
 	if p, ok := unm.Type().(*types.Signature).Recv().Type().(*types.Pointer); ok {
 		pktT = p
 	}
+	// notRequest: a function that encodes a response for its packet parameter, observed to be
+	// called with a packet that is a plain local of the caller and NOT the one the caller
+	// decoded from its input (positively wrong, as opposed to "could not be followed")
+	notRequest := map[string]string{}
 	paramReq := func(fn *ssa.Function) []ssa.Value {
 		var out []ssa.Value
 		for i, prm := range fn.Params {
@@ -392,10 +563,15 @@ func (k *c18) r3nbtns() {
 						}
 						sites++
 						if l, ok := k.addrLoc(ci.Common().Args[i], 0); ok && len(l.path) == 0 {
+							isReq := false
 							for _, rr := range localReq[f] {
 								if rr == l.root {
 									good++
+									isReq = true
 								}
+							}
+							if al, isAlloc := l.root.(*ssa.Alloc); isAlloc && !isReq && len(localReq[f]) > 0 {
+								notRequest[k.r2DeclName(fn)] = fmt.Sprintf("%s is called by %s with the local packet %s, which is not the packet %s decoded from its input", fn.Name(), f.Name(), al.Comment, f.Name())
 							}
 						}
 					}
@@ -419,9 +595,9 @@ func (k *c18) r3nbtns() {
 		}
 		responders[k.r2DeclName(fn)] = true
 		for _, m := range marshals {
-			m := m
-			args := effects.AllArgs(&m.Call)
-			rl, ok := k.addrLoc(args[0], 0)
+			mm := m
+			m := mm.in
+			rl, ok := k.addrLoc(mm.obj, 0)
 			construct := k.fname(fn) + ": response Header.TransactionID ← request Header.TransactionID"
 			if !ok || len(rl.path) != 0 {
 				n++
@@ -561,8 +737,23 @@ func (k *c18) r3nbtns() {
 	servers := k.r2ServerTypes(pk)
 	for _, t := range servers {
 		construct := "nbtns: server type " + t.Obj().Name() + " answers through a responder judged above"
-		if k.r2ReachesAny(k.r2Reach(k.methodsOf(t)), responders) {
+		reach := k.r2Reach(k.methodsOf(t))
+		if k.r2ReachesAny(reach, responders) {
 			k.r.OK(rule, construct, k.p.Rel(t.Obj().Pos()), "reaches a function that decodes the request from its input and encodes a response whose TransactionID is judged")
+		} else if why := func() string {
+			for fn, w := range notRequest {
+				if reach[fn] {
+					return w
+				}
+			}
+			return ""
+		}(); why != "" {
+			k.r.Fail(rule, construct, k.p.Rel(t.Obj().Pos()), "the response of "+t.Obj().Name()+" is built from a packet that is not the decoded request: "+why)
+		} else if dec, enc := k.r3ReachesCodec(reach, unmarshals, marshalsOf); dec != "" && enc != "" {
+			// the server still decodes and still encodes, but not in a pair of places the rule can
+			// connect (decode and encode more than one helper apart, packets kept in fields, …)
+			k.r.OK(rule, construct, k.p.Rel(t.Obj().Pos()), "NOT DECIDED — "+t.Obj().Name()+" reaches Unmarshal (in "+dec+") and Marshal (in "+enc+"), but no function both holds the decoded request and encodes a response, directly or through one level of decode/encode helpers; the id echo of this server was not read")
+			k.r.Note("C18 R3-id-echo: %s NOT DECIDED — decode in %s and encode in %s are not connected by the rule", t.Obj().Name(), dec, enc)
 		} else {
 			k.r.Fail(rule, construct, k.p.Rel(t.Obj().Pos()), "no method of "+t.Obj().Name()+" reaches a function that Unmarshals a request from its input and Marshals a response: the id echo of this server is not decided (or the server no longer answers)")
 		}
@@ -631,7 +822,7 @@ func (k *c18) r3llmnr() {
 							continue
 						}
 						fl := &c18Flow{k: k, fn: fn, visited: map[string]bool{}}
-						for _, s := range fl.fieldSources(c18Loc{l.root, path}, true) {
+						for _, s := range k.r3ThroughCtor(fn, l.root, fl.fieldSources(c18Loc{l.root, path}, true), path, 0) {
 							if s.kind == "load" && s.loc.root == ssa.Value(fn.Params[0]) && c18PathEq(s.loc.path, path) {
 								good++
 							} else if s.kind == "load" && s.loc.root == l.root {
@@ -1073,34 +1264,74 @@ func (k *c18) r3lookupInHelper(h *ssa.Function, load *ssa.Call, key ssa.Value, p
 func (k *c18) r3register(fn *ssa.Function, store *ssa.Call, key, val ssa.Value, path []*types.Var, lp *types.Package) {
 	construct := k.fname(fn) + ": pending query registered under the ID of the message it sends, with a buffered channel"
 	k.c.guard("R3-llmnr-register", construct, k.pos(store), func() {
-		fl := &c18Flow{k: k, fn: fn, visited: map[string]bool{}}
 		var bad []string
-		var msgRoots []ssa.Value
-		for _, s := range fl.valueSources(key) {
-			if s.kind == "load" && c18PathEq(s.loc.path, path) {
-				msgRoots = append(msgRoots, s.loc.root)
-			} else {
-				bad = append(bad, "key: "+s.String())
+		// where the key is judged: in fn itself, or — when the registration sits in a helper
+		// that receives the id as a parameter (c.await(msg.ID)) — at every call site of fn
+		type keySite struct {
+			fn  *ssa.Function
+			key ssa.Value
+		}
+		sites := []keySite{{fn, key}}
+		var prm *ssa.Parameter
+		{
+			// the key is (a copy of) one parameter of fn — directly, or through the variable cell
+			// the builder makes when a function literal captures it
+			kf := &c18Flow{k: k, fn: fn, visited: map[string]bool{}}
+			ks := kf.valueSources(c18Strip(key))
+			if len(ks) == 1 && ks[0].kind == "param" {
+				prm, _ = ks[0].v.(*ssa.Parameter)
 			}
 		}
-		// the same message is encoded (and so sent)
+		if prm != nil && fn.Parent() == nil {
+			idx := -1
+			for i, q := range fn.Params {
+				if q == prm {
+					idx = i
+				}
+			}
+			var at []keySite
+			for _, f := range k.fns {
+				for _, b := range f.Blocks {
+					for _, in := range b.Instrs {
+						if ci, ok := in.(ssa.CallInstruction); ok && ci.Common().StaticCallee() == fn && idx >= 0 && idx < len(ci.Common().Args) {
+							at = append(at, keySite{f, ci.Common().Args[idx]})
+						}
+					}
+				}
+			}
+			if len(at) > 0 {
+				sites = at
+			}
+		}
 		enc := c18Method(lp, "Message", "Encode")
-		encoded := false
-		for _, b := range fn.Blocks {
-			for _, in := range b.Instrs {
-				if c, ok := in.(*ssa.Call); ok && enc != nil && effects.CalleeObj(&c.Call) == enc {
-					if l, ok := k.addrLoc(effects.AllArgs(&c.Call)[0], 0); ok {
-						for _, m := range msgRoots {
-							if m == l.root {
-								encoded = true
+		for _, ks := range sites {
+			fl := &c18Flow{k: k, fn: ks.fn, visited: map[string]bool{}}
+			var msgRoots []ssa.Value
+			for _, s := range fl.valueSources(ks.key) {
+				if s.kind == "load" && c18PathEq(s.loc.path, path) {
+					msgRoots = append(msgRoots, s.loc.root)
+				} else {
+					bad = append(bad, "key: "+s.String())
+				}
+			}
+			// the same message is encoded (and so sent)
+			encoded := false
+			for _, b := range ks.fn.Blocks {
+				for _, in := range b.Instrs {
+					if c, ok := in.(*ssa.Call); ok && enc != nil && effects.CalleeObj(&c.Call) == enc {
+						if l, ok := k.addrLoc(effects.AllArgs(&c.Call)[0], 0); ok {
+							for _, m := range msgRoots {
+								if m == l.root {
+									encoded = true
+								}
 							}
 						}
 					}
 				}
 			}
-		}
-		if !encoded {
-			bad = append(bad, "the message whose ID is the key is not the one encoded for sending")
+			if !encoded {
+				bad = append(bad, "the message whose ID is the key is not the one encoded for sending")
+			}
 		}
 		mc, _ := c18Strip(val).(*ssa.MakeChan)
 		if mc == nil {
@@ -1117,4 +1348,100 @@ func (k *c18) r3register(fn *ssa.Function, store *ssa.Call, key, val ssa.Value, 
 		}
 		k.r.OK("R3-llmnr-register", construct, k.pos(store), "Queries.Store(msg.ID, make(chan, ≥1)) on the message passed to Encode")
 	})
+}
+
+// r3ReachesCodec names one reached function that Unmarshals and one that Marshals.
+func (k *c18) r3ReachesCodec(reach map[string]bool, unmarshals map[*ssa.Function]bool, marshalsOf map[*ssa.Function][]c18Marshal) (dec, enc string) {
+	var ds, es []string
+	for fn := range unmarshals {
+		if reach[k.r2DeclName(fn)] {
+			ds = append(ds, fn.Name())
+		}
+	}
+	for fn, ms := range marshalsOf {
+		if len(ms) > 0 && reach[k.r2DeclName(fn)] {
+			es = append(es, fn.Name())
+		}
+	}
+	sort.Strings(ds)
+	sort.Strings(es)
+	if len(ds) > 0 {
+		dec = ds[0]
+	}
+	if len(es) > 0 {
+		enc = es[0]
+	}
+	return dec, enc
+}
+
+// r3ThroughCtor refines "the field keeps the value its constructor gave it" when the
+// constructor is a module function called with arguments (newResponse(msg.Header.ID, flags)):
+// the sources of the field inside the constructor are translated to the caller — a parameter
+// of the constructor becomes the sources of the argument passed for it.
+func (k *c18) r3ThroughCtor(fn *ssa.Function, root ssa.Value, srcs []c18Src, path []*types.Var, depth int) []c18Src {
+	call, isCall := root.(*ssa.Call)
+	if !isCall || depth > 1 {
+		return srcs
+	}
+	g := call.Call.StaticCallee()
+	if g == nil || g.Blocks == nil || !k.p.InModule(g) || len(call.Call.Args) == 0 {
+		return srcs
+	}
+	var out []c18Src
+	for _, s := range srcs {
+		if !(s.kind == "load" && s.loc.root == root && c18PathEq(s.loc.path, path)) {
+			out = append(out, s)
+			continue
+		}
+		// value as returned by g
+		resolved := false
+		for _, b := range g.Blocks {
+			for _, in := range b.Instrs {
+				ret, ok := in.(*ssa.Return)
+				if !ok || len(ret.Results) == 0 {
+					continue
+				}
+				gl, ok := k.addrLoc(ret.Results[0], 0)
+				if !ok || len(gl.path) != 0 {
+					continue
+				}
+				gf := &c18Flow{k: k, fn: g, visited: map[string]bool{}}
+				for _, gs := range k.r3ThroughCtor(g, gl.root, gf.fieldSources(c18Loc{gl.root, path}, true), path, depth+1) {
+					resolved = true
+					switch {
+					case gs.kind == "param":
+						for i, q := range g.Params {
+							if ssa.Value(q) == gs.v && i < len(call.Call.Args) {
+								cf := &c18Flow{k: k, fn: fn, visited: map[string]bool{}}
+								out = append(out, cf.valueSources(call.Call.Args[i])...)
+							}
+						}
+					case gs.kind == "load" && gs.loc.root != gl.root:
+						// a load rooted at a parameter of g: re-root at the argument
+						translated := false
+						for i, q := range g.Params {
+							if ssa.Value(q) == gs.loc.root && i < len(call.Call.Args) {
+								if al, ok := k.addrLoc(call.Call.Args[i], 0); ok {
+									out = append(out, c18Src{kind: "load", loc: c18Loc{al.root, append(append([]*types.Var{}, al.path...), gs.loc.path...)}})
+									translated = true
+								}
+							}
+						}
+						if !translated {
+							out = append(out, c18Src{kind: "other", desc: "value local to " + g.Name()})
+						}
+					case gs.kind == "load":
+						// kept from a constructor one level further down that was not followed
+						out = append(out, s)
+					default:
+						out = append(out, gs)
+					}
+				}
+			}
+		}
+		if !resolved {
+			out = append(out, s)
+		}
+	}
+	return out
 }
